@@ -48,27 +48,27 @@ CHECKS["C13"] = {
         "off-grid coordinates; rays whose origin lies exactly on a slab face with a zero direction component (0*inf = NaN)",
     ],
     "harnesses": [
-        {"name": "c13::bvh_leaf0", "bound": "empty obstacle set, ray origin on integer grid [-6,6]^3, direction components in {-1,-1/2,0,1/2,1}", "kani_args": NOOVF, "cbmc_args": FS,
+        {"name": "c13::bvh_leaf0", "bound": "empty obstacle set, ray origin on integer grid [-6,6]^3, direction components in {-1,-1/2,0,1/2,1}", "kani_args": NOOVF, "cbmc_args": FS2K,
          "functions": ["BVH::build", "BVH::generate_node_list", "BVH::build_from_node_list", "BVH::intersects", "PreorderIter::next"]},
-        {"name": "c13::bvh_leaf1", "bound": "1 box with integer corners (min in [-4,4]^3, size 1..2), ray as above; max_num_elements=30 (single leaf)", "kani_args": NOOVF, "cbmc_args": FS,
+        {"name": "c13::bvh_leaf1", "bound": "1 box with integer corners (min in [-4,4]^3, size 1..2), ray as above; max_num_elements=30 (single leaf)", "kani_args": NOOVF, "cbmc_args": FS2K,
          "timeout_quick": 900, "functions": ["BVH::build", "BVH::intersects", "AABB::intersects", "<[T] as Bounded>::aabb", "PreorderIter::next"]},
-        {"name": "c13::bvh_leaf2", "tier": "thorough", "bound": "2 boxes, same grids, single leaf", "kani_args": NOOVF, "cbmc_args": FS,
+        {"name": "c13::bvh_leaf2", "tier": "thorough", "bound": "2 boxes, same grids, single leaf", "kani_args": NOOVF, "cbmc_args": FS2K,
          "functions": ["BVH::build", "BVH::intersects", "AABB::intersects", "AABB::join", "PreorderIter::next"]},
-        {"name": "c13p::partition_progress_2", "bound": "2 boxes with integer centres in [-2,2]^3 (coinciding centres included) and half-sizes {1,2}", "kani_args": NOOVF, "cbmc_args": FS,
+        {"name": "c13p::partition_progress_2", "bound": "2 boxes with integer centres in [-2,2]^3 (coinciding centres included) and half-sizes {1,2}", "kani_args": NOOVF, "cbmc_args": FS2K,
          "functions": ["BVH::partition_elements_by_centroid"]},
-        {"name": "c13p::partition_progress_3", "bound": "3 boxes, same grid", "kani_args": NOOVF, "cbmc_args": FS, "timeout_quick": 1200,
+        {"name": "c13p::partition_progress_3", "bound": "3 boxes, same grid", "kani_args": NOOVF, "cbmc_args": FS2K, "timeout_quick": 1200,
          "functions": ["BVH::partition_elements_by_centroid"]},
         {"name": "c13::geo::aabb_slab", "witness": True, "bound": "box corners integers in [-4,7], origin integers in [-6,6]^3, doubled direction in {-2..2}^3 minus 0", "kani_args": NOOVF,
          "functions": ["AABB::intersects"]},
-        {"name": "c13::geo::aabb_join_monotone", "bound": "2 grid boxes, grid ray", "kani_args": NOOVF, "cbmc_args": FS,
+        {"name": "c13::geo::aabb_join_monotone", "bound": "2 grid boxes, grid ray", "kani_args": NOOVF, "cbmc_args": FS2K,
          "functions": ["AABB::intersects", "AABB::join", "<[T] as Bounded>::aabb"]},
-        {"name": "c13::geo::aabb_join_bounds", "bound": "0..3 boxes, every finite f32 corner", "kani_args": NOOVF, "cbmc_args": FS,
+        {"name": "c13::geo::aabb_join_bounds", "bound": "0..3 boxes, every finite f32 corner", "kani_args": NOOVF, "cbmc_args": FS2K,
          "functions": ["AABB::join", "<[T] as Bounded>::aabb"]},
-        {"name": "c13::geo::wallgeom_aabb", "bound": "quadrilateral with integer vertices in [-4,4]^2 (any order), translation in [-3,3]^3, tilt 0 / azimuth 0", "kani_args": NOOVF, "cbmc_args": FS, "timeout_quick": 900,
+        {"name": "c13::geo::wallgeom_aabb", "bound": "quadrilateral with integer vertices in [-4,4]^2 (any order), translation in [-3,3]^3, tilt 0 / azimuth 0", "kani_args": NOOVF, "cbmc_args": FS2K, "timeout_quick": 900,
          "functions": ["<WallGeom as Bounded>::aabb", "WallGeom::to_global_coords_matrix"]},
-        {"name": "c13::geo::pip_exact_tri", "bound": "triangles (both windings) with integer vertices in [-4,4]^2, points at half-integers", "kani_args": NOOVF, "cbmc_args": FS,
+        {"name": "c13::geo::pip_exact_tri", "bound": "triangles (both windings) with integer vertices in [-4,4]^2, points at half-integers", "kani_args": NOOVF, "cbmc_args": FS2K,
          "timeout_quick": 900, "functions": ["ray::point_in_poly", "Ray::intersects_with_data"]},
-        {"name": "c13::geo::ray_plane", "bound": "rectangle w,h in 1..4, translation in [-3,3]^3, both vertex orders, origin in [-6,6]^3, direction in {-2..2}^2 x {-2,-1,0,1,2}", "kani_args": NOOVF, "cbmc_args": FS,
+        {"name": "c13::geo::ray_plane", "bound": "rectangle w,h in 1..4, translation in [-3,3]^3, both vertex orders, origin in [-6,6]^3, direction in {-2..2}^2 x {-2,-1,0,1,2}", "kani_args": NOOVF, "cbmc_args": FS2K,
          "timeout_quick": 900, "functions": ["Ray::intersects_with_data", "ray::point_in_poly", "Polygon::normal"]},
     ],
 }
@@ -80,15 +80,15 @@ CHECKS["C08"] = {
     "title": "K is the area-weighted mean transmittance of the thermal envelope",
     "outside": ["more than 2 walls / 2 windows / 2 bridges", "off-grid values except in k_default_u (mirror form)", "net areas themselves (Wall::area_net is decided under C11)"],
     "harnesses": [
-        {"name": "c08::k_formula_111", "bound": "1 wall + 1 window + 1 bridge; " + GRIDK, "kani_args": NOOVF, "cbmc_args": FS, "stubs": FMT,
+        {"name": "c08::k_formula_111", "bound": "1 wall + 1 window + 1 bridge; " + GRIDK, "kani_args": NOOVF, "cbmc_args": FS2K, "stubs": FMT,
          "functions": ["KData::from(&EnergyProps)"]},
-        {"name": "c08::k_default_u", "bound": "1 wall + 1 window, areas in {0..7}, U in {k/4, k<=15}, multiplier {1,2}, presence of computed/override symbolic (mirror form: 5.7 is not dyadic)", "kani_args": NOOVF, "cbmc_args": FS, "stubs": FMT,
+        {"name": "c08::k_default_u", "bound": "1 wall + 1 window, areas in {0..7}, U in {k/4, k<=15}, multiplier {1,2}, presence of computed/override symbolic (mirror form: 5.7 is not dyadic)", "kani_args": NOOVF, "cbmc_args": FS2K, "stubs": FMT,
          "functions": ["KData::from(&EnergyProps)"]},
-        {"name": "c08::k_formula_211", "tier": "thorough", "bound": "2 walls + 1 window + 1 bridge; " + GRIDK, "kani_args": NOOVF, "cbmc_args": FS, "stubs": FMT,
+        {"name": "c08::k_formula_211", "tier": "thorough", "bound": "2 walls + 1 window + 1 bridge; " + GRIDK, "kani_args": NOOVF, "cbmc_args": FS2K, "stubs": FMT,
          "functions": ["KData::from(&EnergyProps)"]},
-        {"name": "c08::k_permutation", "tier": "thorough", "bound": "2 walls + 1 window under two id assignments; " + GRIDK, "kani_args": NOOVF, "cbmc_args": FS, "stubs": FMT,
+        {"name": "c08::k_permutation", "tier": "thorough", "bound": "2 walls + 1 window under two id assignments; " + GRIDK, "kani_args": NOOVF, "cbmc_args": FS2K, "stubs": FMT,
          "functions": ["KData::from(&EnergyProps)"]},
-        {"name": "c08::k_formula_222", "tier": "thorough", "mem_gb": 40, "timeout_thorough": 2700, "bound": "2 walls + 2 windows + 2 bridges; " + GRIDK, "kani_args": NOOVF, "cbmc_args": FS, "stubs": FMT,
+        {"name": "c08::k_formula_222", "tier": "thorough", "mem_gb": 40, "timeout_thorough": 2700, "bound": "2 walls + 2 windows + 2 bridges; " + GRIDK, "kani_args": NOOVF, "cbmc_args": FS2K, "stubs": FMT,
          "functions": ["KData::from(&EnergyProps)"]},
     ],
 }
@@ -97,9 +97,9 @@ CHECKS["C09"] = {
     "title": "n50 follows the DB-HE air-permeability formula",
     "outside": ["more than 2 walls / 2 windows", "off-grid values (0.629 enters in mirror form only)"],
     "harnesses": [
-        {"name": "c09::n50_11", "bound": "1 wall + 1 window + optional construction; areas, C_h, V on {0..3}, C_o in {16,29}, test value on {0..3} or absent", "kani_args": NOOVF, "cbmc_args": FS, "stubs": FMT,
+        {"name": "c09::n50_11", "bound": "1 wall + 1 window + optional construction; areas, C_h, V on {0..3}, C_o in {16,29}, test value on {0..3} or absent", "kani_args": NOOVF, "cbmc_args": FS2K, "stubs": FMT,
          "functions": ["N50Data::from(&EnergyProps)"]},
-        {"name": "c09::n50_22", "tier": "thorough", "mem_gb": 40, "timeout_thorough": 2700, "bound": "2 walls + 2 windows, same grids", "kani_args": NOOVF, "cbmc_args": FS, "stubs": FMT,
+        {"name": "c09::n50_22", "tier": "thorough", "mem_gb": 40, "timeout_thorough": 2700, "bound": "2 walls + 2 windows, same grids", "kani_args": NOOVF, "cbmc_args": FS2K, "stubs": FMT,
          "functions": ["N50Data::from(&EnergyProps)"]},
     ],
 }
@@ -110,11 +110,11 @@ CHECKS["C10"] = {
     "title": "q_sol;jul follows the DB-HE solar-control formula",
     "outside": ["contents of the embedded July table (an arbitrary non-negative 9-entry table is the input)", "more than 2 windows"],
     "harnesses": [
-        {"name": "c10::qsol_1", "unwindset": UW10, "bound": "1 window: any of the 9 orientation classes, area {0..3}, multiplier {1,2}, F in {0,1/2,1} (override/computed/absent), g in {k/4}, Ff in {0,1/4,1/2,3/4}, construction present/absent (0.77/0.20 defaults in mirror form), A_ref in {1,2,8}, table = 9 distinct constants", "kani_args": NOOVF, "cbmc_args": FS, "stubs": FMT,
+        {"name": "c10::qsol_1", "unwindset": UW10, "bound": "1 window: any of the 9 orientation classes, area {0..3}, multiplier {1,2}, F in {0,1/2,1} (override/computed/absent), g in {k/4}, Ff in {0,1/4,1/2,3/4}, construction present/absent (0.77/0.20 defaults in mirror form), A_ref in {1,2,8}, table = 9 distinct constants", "kani_args": NOOVF, "cbmc_args": FS2K, "stubs": FMT,
          "functions": ["QSolJulData::from(&EnergyProps, &HashMap)"]},
-        {"name": "c10::qsol_finite", "unwindset": UW10, "bound": "0 or 1 window, A_ref in {0,2,8}, same grids", "kani_args": NOOVF, "cbmc_args": FS, "stubs": FMT,
+        {"name": "c10::qsol_finite", "unwindset": UW10, "bound": "0 or 1 window, A_ref in {0,2,8}, same grids", "kani_args": NOOVF, "cbmc_args": FS2K, "stubs": FMT,
          "functions": ["QSolJulData::from(&EnergyProps, &HashMap)"]},
-        {"name": "c10::qsol_2", "unwindset": UW10, "tier": "thorough", "mem_gb": 40, "timeout_thorough": 2700, "bound": "2 windows", "kani_args": NOOVF, "cbmc_args": FS, "stubs": FMT,
+        {"name": "c10::qsol_2", "unwindset": UW10, "tier": "thorough", "mem_gb": 40, "timeout_thorough": 2700, "bound": "2 windows", "kani_args": NOOVF, "cbmc_args": FS2K, "stubs": FMT,
          "functions": ["QSolJulData::from(&EnergyProps, &HashMap)"]},
     ],
 }
@@ -125,11 +125,11 @@ CHECKS["C07"] = {
     "title": "window U-value and solar factors",
     "outside": ["the 0.77 / 5.7 / 0.20 defaults used downstream are decided under C08, C10 and C11"],
     "harnesses": [
-        {"name": "c07::win_u_formula", "bound": "Ug,Uf in {k/4,k<=23}, g_n, Ff in {k/8,k<=8}, dU in {0,10,25,50}", "kani_args": NOOVF, "cbmc_args": FS, "stubs": FMT + ROUND,
+        {"name": "c07::win_u_formula", "bound": "Ug,Uf in {k/4,k<=23}, g_n, Ff in {k/8,k<=8}, dU in {0,10,25,50}", "kani_args": NOOVF, "cbmc_args": FS2K, "stubs": FMT + ROUND,
          "functions": ["WinCons::u_value", "WinCons::g_glwi", "WinCons::g_glshwi", "fround2"]},
-        {"name": "c07::win_lookup", "witness": True, "bound": "concrete numbers; glazing / frame present or absent (decoys first in the db), user shading factor present or absent", "kani_args": NOOVF, "cbmc_args": FS, "stubs": FMT + ROUND,
+        {"name": "c07::win_lookup", "witness": True, "bound": "concrete numbers; glazing / frame present or absent (decoys first in the db), user shading factor present or absent", "kani_args": NOOVF, "cbmc_args": FS2K, "stubs": FMT + ROUND,
          "functions": ["WinCons::u_value", "WinCons::g_glwi", "WinCons::g_glshwi", "ConsDb::get_glass", "ConsDb::get_frame"]},
-        {"name": "c07::win_u_bounds", "witness": True, "bound": "Ug,Uf in {k/2, k<=12}, Ff in {0,1/4,1/2,3/4,1}, dU in {0,25,50}", "kani_args": NOOVF, "cbmc_args": FS, "stubs": FMT + ROUND,
+        {"name": "c07::win_u_bounds", "witness": True, "bound": "Ug,Uf in {k/2, k<=12}, Ff in {0,1/4,1/2,3/4,1}, dU in {0,25,50}", "kani_args": NOOVF, "cbmc_args": FS2K, "stubs": FMT + ROUND,
          "functions": ["WinCons::u_value", "fround2"]},
     ],
 }
@@ -139,11 +139,11 @@ CHECKS["C15"] = {
     "assumptions": ["bridge length is not NaN and not -0.0 (the statement says 'negative length'; is_sign_negative() flags -0.0 - recorded as an observation, not a finding)"],
     "outside": ["warning texts", "'the warnings returned with the indicators are the checker's' (EnergyIndicators::compute reads the climate statics)", "more than 2 walls / 2 windows / 2 bridges"],
     "harnesses": [
-        {"name": "c15::check_wall_first", "timeout_quick": 1500, "mem_gb": 40, "bound": "1 wall, 2 spaces, 2 constructions; space, construction and adjacent-space links in {valid a, valid b, nil, absent}; exact count; id and level of the first warning read back", "kani_args": NOOVF, "cbmc_args": FS, "stubs": FMT, "functions": ["bemodel::check"]},
-        {"name": "c15::check_win", "bound": "1 window; wall and construction links symbolic; ids read back", "kani_args": NOOVF, "cbmc_args": FS, "stubs": FMT, "functions": ["bemodel::check"]},
-        {"name": "c15::check_tb", "bound": "2 bridges, any f32 length except NaN/-0.0; ids read back", "kani_args": NOOVF, "cbmc_args": FS, "stubs": FMT, "functions": ["bemodel::check"]},
-        {"name": "c15::check_len_111", "bound": "1 wall + 1 window + 1 bridge, every link symbolic: exact number of warnings (ids not read back)", "kani_args": NOOVF, "cbmc_args": FS, "stubs": FMT, "functions": ["bemodel::check"]},
-        {"name": "c15::check_len_222", "tier": "thorough", "bound": "2 walls + 2 windows + 2 bridges: exact number of warnings", "kani_args": NOOVF, "cbmc_args": FS, "stubs": FMT, "functions": ["bemodel::check"]},
+        {"name": "c15::check_wall_first", "tier": "thorough", "timeout_thorough": 2700, "mem_gb": 24, "bound": "1 wall, 1 space, 1 construction; space, construction and adjacent-space links in {valid, nil, absent}; exact count; id and level of the first warning read back", "kani_args": NOOVF, "cbmc_args": FS2K, "stubs": FMT, "functions": ["bemodel::check"]},
+        {"name": "c15::check_win", "bound": "1 window; wall and construction links symbolic; ids read back", "kani_args": NOOVF, "cbmc_args": FS2K, "stubs": FMT, "functions": ["bemodel::check"]},
+        {"name": "c15::check_tb", "bound": "2 bridges, any f32 length except NaN/-0.0; ids read back", "kani_args": NOOVF, "cbmc_args": FS2K, "stubs": FMT, "functions": ["bemodel::check"]},
+        {"name": "c15::check_len_111", "bound": "1 wall + 1 window + 1 bridge, every link symbolic: exact number of warnings (ids not read back)", "kani_args": NOOVF, "cbmc_args": FS2K, "stubs": FMT, "functions": ["bemodel::check"]},
+        {"name": "c15::check_len_222", "tier": "thorough", "bound": "2 walls + 2 windows + 2 bridges: exact number of warnings", "kani_args": NOOVF, "cbmc_args": FS2K, "stubs": FMT, "functions": ["bemodel::check"]},
     ],
 
 }
@@ -153,11 +153,11 @@ UNREGISTERED["C16"] = {
     "title": "purging removes exactly the unreachable items",
     "outside": ["'leaves K, n50, q_sol;jul unchanged' (the indicators read only reachable items by construction of the retained set; not executed here)", "more than 2 items per collection, more than 1 wall"],
     "harnesses": [
-        {"name": "c16::purge_spaces_tbs", "bound": "3 spaces, 1 wall (space in {1,2,3,absent}, next_to in {None,1,2,3}), 2 bridges with l in {-1,0,1}", "kani_args": NOOVF, "cbmc_args": FS, "stubs": FMT, "timeout_quick": 1200, "functions": ["bemodel::purge_unused"]},
-        {"name": "c16::purge_wallcons", "bound": "1 wall (construction in {a,b,absent}), 2 wall constructions with one layer (material in {a,b,absent}), 2 materials", "kani_args": NOOVF, "cbmc_args": FS, "stubs": FMT, "timeout_quick": 1200, "functions": ["bemodel::purge_unused"]},
-        {"name": "c16::purge_wincons", "bound": "0..1 window (construction in {a,b,absent}), 2 window constructions (glass, frame in {a,b,absent}), 2 glazings, 2 frames", "kani_args": NOOVF, "cbmc_args": FS, "stubs": FMT, "timeout_quick": 1200, "functions": ["bemodel::purge_unused"]},
-        {"name": "c16::purge_loads", "bound": "2 spaces (second possibly unused), loads/thermostat links in {None,a,b,absent}, 2 loads, 2 thermostats", "kani_args": NOOVF, "cbmc_args": FS, "stubs": FMT, "timeout_quick": 1200, "functions": ["bemodel::purge_unused"]},
-        {"name": "c16::purge_schedules", "bound": "1 space, 1 load (3 schedule links), 1 thermostat (2 links) in {None,a,b,absent}; 2 yearly -> 2 weekly -> 2 daily with links in {a,b,absent}", "kani_args": NOOVF, "cbmc_args": FS, "stubs": FMT, "timeout_quick": 1200, "functions": ["bemodel::purge_unused"]},
+        {"name": "c16::purge_spaces_tbs", "bound": "3 spaces, 1 wall (space in {1,2,3,absent}, next_to in {None,1,2,3}), 2 bridges with l in {-1,0,1}", "kani_args": NOOVF, "cbmc_args": FS2K, "stubs": FMT, "timeout_quick": 1200, "functions": ["bemodel::purge_unused"]},
+        {"name": "c16::purge_wallcons", "bound": "1 wall (construction in {a,b,absent}), 2 wall constructions with one layer (material in {a,b,absent}), 2 materials", "kani_args": NOOVF, "cbmc_args": FS2K, "stubs": FMT, "timeout_quick": 1200, "functions": ["bemodel::purge_unused"]},
+        {"name": "c16::purge_wincons", "bound": "0..1 window (construction in {a,b,absent}), 2 window constructions (glass, frame in {a,b,absent}), 2 glazings, 2 frames", "kani_args": NOOVF, "cbmc_args": FS2K, "stubs": FMT, "timeout_quick": 1200, "functions": ["bemodel::purge_unused"]},
+        {"name": "c16::purge_loads", "bound": "2 spaces (second possibly unused), loads/thermostat links in {None,a,b,absent}, 2 loads, 2 thermostats", "kani_args": NOOVF, "cbmc_args": FS2K, "stubs": FMT, "timeout_quick": 1200, "functions": ["bemodel::purge_unused"]},
+        {"name": "c16::purge_schedules", "bound": "1 space, 1 load (3 schedule links), 1 thermostat (2 links) in {None,a,b,absent}; 2 yearly -> 2 weekly -> 2 daily with links in {a,b,absent}", "kani_args": NOOVF, "cbmc_args": FS2K, "stubs": FMT, "timeout_quick": 1200, "functions": ["bemodel::purge_unused"]},
     ],
 }
 
@@ -170,12 +170,12 @@ CHECKS["C06"] = {
                 "numeric value of ln (uninterpreted)", "tolerance statements for arbitrary reals: the mirror oracle pins formula, constants, branch structure and operand order, not conditioning",
                 "stacks deeper than 3 layers", "unconditioned spaces with more than 2 bounding exterior elements", "U of partitions between equally conditioned spaces with a neighbour (the statement does not define it): only 'has a value' is asserted"],
     "harnesses": [
-        {"name": "c06::u_resistance", "bound": "0..3 layers, each detailed (lambda in {0.035,0.4,1.0,2.3} or <= 0), resistance-only (R in {k/4, k<=15}) or with a missing material; thickness in {k/16, k<=15}", "kani_args": NOOVF, "cbmc_args": FS, "stubs": FMT, "functions": ["WallCons::resistance", "ConsDb::get_material"]},
-        {"name": "c06::u_exterior_kernel", "bound": "tilt in {0,60,90,120,180,300}, R in {k/8, k<=63} or None", "kani_args": NOOVF, "cbmc_args": FS, "stubs": C06S, "functions": ["Wall::u_value_exterior", "Tilt::from", "fround2"]},
-        {"name": "c06::u_interior_kernel", "bound": "Ai in {(k+1)/2}, Rf in {k/4}, UA in {k/2}, q in {2k}, k<=15", "kani_args": NOOVF, "cbmc_args": FS, "stubs": C06S, "functions": ["Wall::u_value_interior_cond_uncond"]},
-        {"name": "c06::u_gnd_slab_kernel", "bound": "z in {k/2,k<=7}, d_t in {(k+1)/4}, B' in {(k+1)/2}, k<=15, psi in {-k/8,k<=7}", "kani_args": NOOVF, "cbmc_args": FS, "stubs": C06S + LN, "functions": ["Wall::u_value_gnd_slab"]},
-        {"name": "c06::u_gnd_wall_kernel", "bound": "z in {k/2,k<=7}, U_w, d_t in {(k+1)/4,k<=15}, h in {(k+1)/2,k<=7}", "kani_args": NOOVF, "cbmc_args": FS, "stubs": C06S + LN, "functions": ["Wall::u_value_gnd_wall"]},
-        {"name": "c06::u_gnd_dt_psi", "tier": "thorough", "timeout_thorough": 2700, "bound": "1 ground slab of side 1..4 (+2 decoy floors), slab resistance in {k/4,k<=15}, construction present/absent, Rn in {k/2,k<=7}, D in {k/4,k<=7}, d_t in {(k+1)/4}", "kani_args": NOOVF, "cbmc_args": FS, "stubs": C06S + LN, "functions": ["Space::slab_d_t", "Space::slab_psi_gnd_ext"]},
+        {"name": "c06::u_resistance", "bound": "0..3 layers, each detailed (lambda in {0.035,0.4,1.0,2.3} or <= 0), resistance-only (R in {k/4, k<=15}) or with a missing material; thickness in {k/16, k<=15}", "kani_args": NOOVF, "cbmc_args": FS2K, "stubs": FMT, "functions": ["WallCons::resistance", "ConsDb::get_material"]},
+        {"name": "c06::u_exterior_kernel", "bound": "tilt in {0,60,90,120,180,300}, R in {k/8, k<=63} or None", "kani_args": NOOVF, "cbmc_args": FS2K, "stubs": C06S, "functions": ["Wall::u_value_exterior", "Tilt::from", "fround2"]},
+        {"name": "c06::u_interior_kernel", "bound": "Ai in {(k+1)/2}, Rf in {k/4}, UA in {k/2}, q in {2k}, k<=15", "kani_args": NOOVF, "cbmc_args": FS2K, "stubs": C06S, "functions": ["Wall::u_value_interior_cond_uncond"]},
+        {"name": "c06::u_gnd_slab_kernel", "bound": "z in {k/2,k<=7}, d_t in {(k+1)/4}, B' in {(k+1)/2}, k<=15, psi in {-k/8,k<=7}", "kani_args": NOOVF, "cbmc_args": FS2K, "stubs": C06S + LN, "functions": ["Wall::u_value_gnd_slab"]},
+        {"name": "c06::u_gnd_wall_kernel", "bound": "z in {k/2,k<=7}, U_w, d_t in {(k+1)/4,k<=15}, h in {(k+1)/2,k<=7}", "kani_args": NOOVF, "cbmc_args": FS2K, "stubs": C06S + LN, "functions": ["Wall::u_value_gnd_wall"]},
+        {"name": "c06::u_gnd_dt_psi", "tier": "thorough", "timeout_thorough": 2700, "bound": "1 ground slab of side 1..4 (+2 decoy floors), slab resistance in {k/4,k<=15}, construction present/absent, Rn in {k/2,k<=7}, D in {k/4,k<=7}, d_t in {(k+1)/4}", "kani_args": NOOVF, "cbmc_args": FS2K, "stubs": C06S + LN, "functions": ["Space::slab_d_t", "Space::slab_psi_gnd_ext"]},
         {"name": "c06::dispatch::u_dispatch_air", "bound": "concrete construction (R=1.75); symbolic: 4 boundary kinds x tilt {0,90,180} x construction/material present x lambda > 0", "kani_args": NOOVF, "cbmc_args": FS2K, "stubs": C06S, "functions": ["Wall::u_value", "WallCons::resistance", "Wall::u_value_exterior"]},
         {"name": "c06::dispatch::u_dispatch_partition", "timeout_quick": 1200, "bound": "concrete geometry; symbolic: 3x3 space kinds, tilt {0,90,180}, neighbour none/valid/dangling, per-space n_v present or not, building ventilation present or not", "kani_args": NOOVF, "cbmc_args": FS2K, "stubs": C06S, "timeout_quick": 1500,
          "functions": ["Wall::u_value", "Space::ua_of_external_and_ground_surfaces", "Model::global_ventilation_rate", "Space::area", "Space::height_net", "Wall::u_value_interior_cond_uncond"]},
@@ -196,18 +196,18 @@ CHECKS["C06"] = {
 FSH = ["Model::compute_fshobst -> empty map (obstruction factors are inputs; ray casting is decided under C12/C13)"]
 
 CHECKS["C11"]["harnesses"] += [
-    {"name": "c11p::polygon_area_3", "bound": "3 integer vertices in [-4,4]^2 (any winding), scale factors {1/4,1/2,2,4}", "kani_args": NOOVF, "cbmc_args": FS,
+    {"name": "c11p::polygon_area_3", "bound": "3 integer vertices in [-4,4]^2 (any winding), scale factors {1/4,1/2,2,4}", "kani_args": NOOVF, "cbmc_args": FS2K,
      "functions": ["<Polygon as HasSurface>::area", "<Polygon as HasSurface>::perimeter"]},
-    {"name": "c11p::polygon_area_4", "tier": "thorough", "bound": "4 integer vertices (any winding, self-intersections allowed), scale factor 2", "kani_args": NOOVF, "cbmc_args": FS,
+    {"name": "c11p::polygon_area_4", "tier": "thorough", "bound": "4 integer vertices (any winding, self-intersections allowed), scale factor 2", "kani_args": NOOVF, "cbmc_args": FS2K,
      "functions": ["<Polygon as HasSurface>::area"]},
-    {"name": "c11p::polygon_area_5", "tier": "thorough", "bound": "5 integer vertices", "kani_args": NOOVF, "cbmc_args": FS, "functions": ["<Polygon as HasSurface>::area"]},
-    {"name": "c11p::space_area_height", "bound": "1 space, 2 floors (second own/foreign), ceiling own roof / given from the other side / none, 0..2 windows; sizes on integer grid", "kani_args": NOOVF, "cbmc_args": FS, "stubs": FMT + ROUND,
+    {"name": "c11p::polygon_area_5", "tier": "thorough", "bound": "5 integer vertices", "kani_args": NOOVF, "cbmc_args": FS2K, "functions": ["<Polygon as HasSurface>::area"]},
+    {"name": "c11p::space_area_height", "bound": "1 space, 2 floors (second own/foreign), ceiling own roof / given from the other side / none, 0..2 windows; sizes on integer grid", "kani_args": NOOVF, "cbmc_args": FS2K, "stubs": FMT + ROUND,
      "functions": ["Space::area", "Space::height_net", "Wall::area_net", "WallCons::thickness"]},
-    {"name": "c11p::props_membership", "mem_gb": 40, "bound": "2 spaces (inside/outside each), 1 wall INTERIOR or ADIABATIC, neighbour none/valid/dangling (empty polygon)", "kani_args": NOOVF, "cbmc_args": FS, "stubs": FMT + ROUND + FSH, "timeout_quick": 1200,
+    {"name": "c11p::props_membership", "bound": "2 spaces (inside/outside each), 1 wall INTERIOR or ADIABATIC, neighbour none/valid/dangling (empty polygon)", "kani_args": NOOVF, "cbmc_args": FS2K, "stubs": FMT + ROUND + FSH, "timeout_quick": 1200,
      "functions": ["EnergyProps::from(&Model)"]},
-    {"name": "c11p::props_global", "bound": "1 space (inside/outside, 3 kinds, multiplier {1,2}, height {2,3,4}) and its floor (4 boundary kinds, side 1..4), new/existing building", "kani_args": NOOVF, "cbmc_args": FS, "stubs": FMT + ROUND + FSH, "timeout_quick": 1200,
+    {"name": "c11p::props_global", "bound": "1 space (inside/outside, 3 kinds, multiplier {1,2}, height {2,3,4}) and its floor (4 boundary kinds, side 1..4), new/existing building", "kani_args": NOOVF, "cbmc_args": FS2K, "stubs": FMT + ROUND + FSH, "timeout_quick": 1200,
      "functions": ["EnergyProps::from(&Model)", "Space::area", "Space::height_net", "Wall::u_value", "Wall::area_net"]},
-    {"name": "c11p::ventilation_consistency", "bound": "1 space (inside/outside, 3 kinds), floor side 1..4, building ventilation in {10..13} l/s", "kani_args": NOOVF, "cbmc_args": FS, "stubs": FMT + ROUND + FSH, "timeout_quick": 1200,
+    {"name": "c11p::ventilation_consistency", "bound": "1 space (inside/outside, 3 kinds), floor side 1..4, building ventilation in {10..13} l/s", "kani_args": NOOVF, "cbmc_args": FS2K, "stubs": FMT + ROUND + FSH, "timeout_quick": 1200,
      "functions": ["EnergyProps::from(&Model)", "Model::global_ventilation_rate"]},
 ]
 CHECKS["C11"]["outside"] = ["scale factors that are not powers of two", "models with more than 2 spaces / 2 walls", "off-grid geometry", "net volume with a ceiling element (net height is decided separately in space_area_height)"]
@@ -215,9 +215,9 @@ CHECKS["C11"]["outside"] = ["scale factors that are not powers of two", "models 
 CHECKS["C17"]["harnesses"] += [
     {"name": "c17::sched::week_to_days", "tier": "off", "bound": "weekly schedules of two runs (3+4, 0+7), daily ids symbolic", "kani_args": NOOVF, "cbmc_args": FS2K, "functions": ["ScheduleWeek::to_day_sch"]},
     {"name": "c17::sched::end_dates_partition", "witness": True, "bound": "every increasing list of 3 end dates ending on 31 Dec", "functions": ["convert::from_ctehexml::day_of_year"]},
-    {"name": "c17::sched::year_as_days", "tier": "off", "bound": "3 periods of (3,2,4) days over weekly schedules with runs (2+5) and (5+2): lengths concrete, the daily schedules the runs refer to symbolic", "kani_args": NOOVF, "cbmc_args": FS, "stubs": FMT, "timeout_quick": 900,
+    {"name": "c17::sched::year_as_days", "tier": "off", "bound": "3 periods of (3,2,4) days over weekly schedules with runs (2+5) and (5+2): lengths concrete, the daily schedules the runs refer to symbolic", "kani_args": NOOVF, "cbmc_args": FS2K, "stubs": FMT, "timeout_quick": 900,
      "functions": ["SchedulesDb::get_year_as_day_sch", "ScheduleWeek::to_day_sch"]},
-    {"name": "c17::sched::year_as_days_b", "tier": "off", "bound": "periods (8,0,2) with runs (1+6) and (1,3,5) with runs (3+4, 0+7) and a missing weekly schedule for the third period", "kani_args": NOOVF, "cbmc_args": FS, "stubs": FMT, "timeout_quick": 900,
+    {"name": "c17::sched::year_as_days_b", "tier": "off", "bound": "periods (8,0,2) with runs (1+6) and (1,3,5) with runs (3+4, 0+7) and a missing weekly schedule for the third period", "kani_args": NOOVF, "cbmc_args": FS2K, "stubs": FMT, "timeout_quick": 900,
      "functions": ["SchedulesDb::get_year_as_day_sch", "ScheduleWeek::to_day_sch"]},
 ]
 CHECKS["C17"]["outside"] = ["schedules_from_bdl itself (string-keyed IdMaps): only its date arithmetic is decided", "schedule expansion (SchedulesDb::get_year_as_day_sch / ScheduleWeek::to_day_sch: flat_map over vec![id; n]): 560 s of symbolic execution and 2.5 M program steps for ONE weekly schedule with concrete run lengths, then out of memory; harnesses kept in harness/src/c17.rs but not registered in any tier", "yearly occupied time and mean internal load", "symbolic period and run lengths (vectors of symbolic length exhaust the solver): the lengths are the concrete ones listed per harness"]
@@ -229,7 +229,7 @@ CHECKS["C14"] = {
                 "lock poisoning / 'a failure never affects later computations' (no threads or unwinding under Kani)", "JSON serialise/parse of the result", "compute_fshobst (stubbed; its ray casting is decided under C12/C13; the empty obstacle set under C13 bvh_leaf0)", "finiteness of q_sol;jul without windows is decided under C10, of the ventilation rate under C11"],
     "harnesses": [
         {"name": "c14::props_total_dangling", "bound": "1 space (3 kinds, inside/outside), 1 triangular wall (space link valid/nil/absent, neighbour none/valid/absent, 4 boundary kinds, 3 tilts, construction absent), 1 window (wall valid/absent, sizes in {-1..2}, construction absent), 1 bridge (l, psi in {-1,0,1})",
-         "kani_args": NOOVF, "cbmc_args": FS, "stubs": FMT + ROUND + FSH, "timeout_quick": 1200, "mem_gb": 40,
+         "kani_args": NOOVF, "cbmc_args": FS2K, "stubs": FMT + ROUND + FSH, "timeout_quick": 1200, "mem_gb": 40,
          "functions": ["EnergyProps::from(&Model)", "KData::from", "N50Data::from"]},
         {"name": "c14::finite_when_sane", "bound": "closed model: 1 space (3 kinds, multiplier {1,2}, height {2,3,4}), exterior floor side 1..4 and exterior wall with one window, resolvable constructions on dyadic grids, 1 bridge, building ventilation and blower-door value present or absent",
          "kani_args": NOOVF, "cbmc_args": FS2K, "stubs": FMT + ROUND + FSH, "timeout_quick": 1500, "mem_gb": 40,
@@ -252,8 +252,8 @@ CHECKS["C19"] = {
     "title": "damaged project files: typed-value kernels do not crash (partial)",
     "outside": ["everything between bytes and typed values: deleted/duplicated lines, truncation, numbers replaced by text, the XML layer, kyg/tbl readers (string parsing is not executable symbolically)", "hangs"],
     "harnesses": [
-        {"name": "c19::edge_vertices_total", "witness": True, "bound": "vertex name 'V'+one digit, outline of 0..4 vertices", "kani_args": NOOVF, "cbmc_args": FS, "stubs": FMT, "functions": ["hulc::bdl::Polygon::edge_vertices"]},
-        {"name": "c19::polygon_ops_total", "bound": "outline of 0..3 vertices on integer grid", "kani_args": NOOVF, "cbmc_args": FS, "functions": ["hulc::bdl::Polygon::area", "hulc::bdl::Polygon::mirror_y"]},
+        {"name": "c19::edge_vertices_total", "witness": True, "bound": "vertex name 'V'+one digit, outline of 0..4 vertices", "kani_args": NOOVF, "cbmc_args": FS2K, "stubs": FMT, "functions": ["hulc::bdl::Polygon::edge_vertices"]},
+        {"name": "c19::polygon_ops_total", "bound": "outline of 0..3 vertices on integer grid", "kani_args": NOOVF, "cbmc_args": FS2K, "functions": ["hulc::bdl::Polygon::area", "hulc::bdl::Polygon::mirror_y"]},
         {"name": "c19::dates_total", "witness": True, "bound": "any (day, month) in 0..=99", "functions": ["convert::from_ctehexml::day_of_year"]},
         {"name": "c19::tilt_any_total", "witness": True, "bound": "every f32 bit pattern", "kani_args": NOOVF, "functions": ["hulc::bdl::Wall::position", "bemodel::Tilt::from(f32)"]},
     ],
@@ -268,7 +268,7 @@ CHECKS["C04"] = {
         {"name": "c04::skip_true", "witness": True, "bound": "both booleans", "functions": ["utils::is_true", "utils::default_true"]},
         {"name": "c04::skip_default_f32", "witness": True, "bound": "every f32 bit pattern", "functions": ["utils::is_default::<f32>"]},
         {"name": "c04::skip_default_enums", "witness": True, "bound": "all SpaceType and ThermalBridgeKind values", "functions": ["utils::is_default::<SpaceType>", "utils::is_default::<ThermalBridgeKind>"]},
-        {"name": "c04::skip_empty_containers", "bound": "each part of ConsDb / SchedulesDb / PropsOverrides empty or holding one item", "cbmc_args": FS, "functions": ["ConsDb::is_empty", "SchedulesDb::is_empty", "PropsOverrides::is_empty"]},
+        {"name": "c04::skip_empty_containers", "bound": "each part of ConsDb / SchedulesDb / PropsOverrides empty or holding one item", "cbmc_args": FS2K, "functions": ["ConsDb::is_empty", "SchedulesDb::is_empty", "PropsOverrides::is_empty"]},
     ],
 }
 
@@ -278,6 +278,6 @@ CHECKS["C03"] = {
     "harnesses": [
         {"name": "c03::azimuth_convention", "witness": True, "bound": "every quarter-degree azimuth in [-720,1080]", "kani_args": NOOVF, "unwindset": [[r"c03::azimuth_convention", 7]], "functions": ["convert::orientation_bdl_to_52016", "convert::normalize_azimuth", "utils::normalize"]},
         {"name": "c03::azimuth_shift", "bound": "every pair (azimuth, delta) on the quarter-degree grid in [0,360)^2", "kani_args": NOOVF, "unwindset": [[r"c03::azimuth_shift", 5]], "functions": ["convert::orientation_bdl_to_52016"]},
-        {"name": "c03::mirror_y_outline", "bound": "outline of 1..4 vertices on integer grid [-4,4]^2", "kani_args": NOOVF, "cbmc_args": FS, "functions": ["hulc::bdl::Polygon::mirror_y"]},
+        {"name": "c03::mirror_y_outline", "bound": "outline of 1..4 vertices on integer grid [-4,4]^2", "kani_args": NOOVF, "cbmc_args": FS2K, "functions": ["hulc::bdl::Polygon::mirror_y"]},
     ],
 }
